@@ -13,7 +13,7 @@ def main():
   pid, needs = sys.argv[1], sys.argv[2]
   rnd = sys.argv[3] if len(sys.argv) > 3 else ''      # '' first round, '2' second round ...
   wt = f'/tmp/seed{rnd}-{pid}'
-  out = f'/verif/seeded/{pid}' + ({'': '', '2': 'b', '3': 'c'}[rnd])
+  out = f'/verif/seeded/{pid}' + ({'': '', '2': 'b', '3': 'c', '4': 'd'}[rnd])
   os.makedirs(out, exist_ok=True)
   diff = run(['git', '-C', wt, 'diff', '--', 'ml_metrics']).stdout
   open(f'{out}/patch.diff', 'w').write(diff)
